@@ -8,6 +8,7 @@ import (
 	"io"
 	"os"
 	"strconv"
+	"sync/atomic"
 )
 
 // GetCursorPos returns the current cursor position in the terminal.
@@ -20,6 +21,11 @@ func (k *Keys) GetCursorPos() (x, y int) {
 
 	var cursor []byte
 	var match [][]string
+
+	// Let the key reading routine know that a report is expected:
+	// anything looking like one is otherwise an ordinary key sequence.
+	atomic.AddInt32(&k.asking, 1)
+	defer atomic.AddInt32(&k.asking, -1)
 
 	// Echo the query and wait for the main key
 	// reading routine to send us the response back.
@@ -109,6 +115,12 @@ func (k *Keys) readInputFiltered() (keys []byte, err error) {
 	cursor, keys := k.extractCursorPos(buf[:read])
 
 	if len(cursor) > 0 {
+		// Some keys produce the very same sequence (eg. Ctrl-F3):
+		// it is a report only if someone is waiting for one.
+		if atomic.LoadInt32(&k.asking) == 0 {
+			return buf[:read], nil
+		}
+
 		k.cursor <- cursor
 	}
 
